@@ -29,12 +29,36 @@ Definition allowed_writers : list (string * list string) :=
 (** the global error position flows nowhere but to cJSON_GetErrorPtr *)
 Definition allowed_error_readers : list string := ["cJSON_GetErrorPtr"].
 
+(** "only reachable from": [f] is one of the [allowed] functions, or a function with internal linkage (static)
+    all of whose users — callers and functions that take its address, transitively — are.  A helper that an
+    allowed writer calls is thereby as good as the writer itself (moving the store of the error position into
+    a static function called by cJSON_ParseWithLengthOpts changes nothing for other threads), while a function
+    that any other public entry point can reach is not.  Worklist over the reference graph; every function is
+    expanded at most once, the fuel covers every edge. *)
+Definition users (calls : list (string * list string)) (f : string) : list string :=
+  map fst (filter (fun p => mem f (snd p)) calls).
+Fixpoint climb (fuel : nat) (internal : list string) (calls : list (string * list string)) (allowed : list string)
+               (todo visited : list string) : bool :=
+  match todo with
+  | [] => true
+  | f :: rest =>
+      match fuel with
+      | O => false
+      | S k =>
+          if mem f allowed || mem f visited then climb k internal calls allowed rest visited
+          else if mem f internal then climb k internal calls allowed (users calls f ++ rest) (f :: visited)
+          else false
+      end
+  end.
+Definition only_from (internal : list string) (calls : list (string * list string)) (allowed : list string) (f : string) : bool :=
+  climb (length (concat (map snd calls)) + length calls + 2) internal calls allowed [f] [].
+
 Definition statics_ok : bool :=
   incl_b core_mutable_statics documented_globals && incl_b utils_mutable_statics [].
 Definition writers_ok : bool :=
-  forallb (fun g => incl_b (lookup g core_static_writers) (lookup g allowed_writers)) core_mutable_statics.
+  forallb (fun g => forallb (only_from core_internal core_calls (lookup g allowed_writers)) (lookup g core_static_writers)) core_mutable_statics.
 Definition error_readers_ok : bool :=
-  incl_b (lookup "global_error" core_static_readers) allowed_error_readers.
+  forallb (only_from core_internal core_calls allowed_error_readers) (lookup "global_error" core_static_readers).
 (** no function of either file calls (or takes the address of) cJSON_GetErrorPtr *)
 Definition error_ptr_unused : bool :=
   forallb (fun p => negb (mem "cJSON_GetErrorPtr" (snd p))) (core_calls ++ utils_calls).
@@ -63,7 +87,7 @@ Definition externals_ok : bool :=
 Definition allowed_alloc_sites : list string :=
   ["<file scope>"; "cJSON_InitHooks"; "internal_malloc"; "internal_free"; "internal_realloc"].
 Definition alloc_sites_ok : bool :=
-  forallb (fun p => mem (fst p) allowed_alloc_sites) core_direct_alloc_refs &&
+  forallb (fun p => only_from core_internal core_calls allowed_alloc_sites (fst p)) core_direct_alloc_refs &&
   match utils_direct_alloc_refs with [] => true | _ => false end.
 (** functions that read global_hooks, i.e. that allocate or release through the hooks: none of
     them may be outside cJSON.c, and cJSON_Utils.c reaches the allocator only through
